@@ -37,6 +37,8 @@ def evd(term: dict, node: Node) -> Any:
     """python value of a documented outer form, given the concretised value"""
     c = term["c"]
     if c == "atom":
+        if node.c == "atom" and term["a"] != node.a:
+            return univ.rep(term["a"], node.k)         # the outer form is another token than the value (Enum member -> its value)
         return node.last
     if c == "dump":
         return univ.DUMPS[term["f"]](node.last)
